@@ -6,7 +6,7 @@
 use crate::fungen::{self, FunCfg};
 use crate::funref::{self, FunEnd};
 use crate::mach::*;
-use crate::orch::{VERIF_DIR, known_match, load_known};
+use crate::orch::{verif_dir, repo_dir, known_match, load_known};
 use crate::prng::{Rng, hash_str};
 use crate::run::{benign_plan, hostile_plan};
 use crate::{seam, x86};
@@ -67,7 +67,7 @@ int asm_main_shim(void *heap{params}) {{
 impl CRuntime {
     /// compile the real io.c and the real generated drivers for 0..=5 arguments
     pub fn build(tag: &str) -> Result<CRuntime, String> {
-        let dir = format!("{VERIF_DIR}/work/x-{tag}-{}", std::process::id());
+        let dir = format!("{}/work/x-{tag}-{}", verif_dir(), std::process::id());
         let _ = std::fs::remove_dir_all(&dir);
         std::fs::create_dir_all(&dir).map_err(|e| e.to_string())?;
         let old = std::env::current_dir().map_err(|e| e.to_string())?;
@@ -1046,7 +1046,7 @@ pub fn check(id: &str, tier: &str) -> i32 {
         if *cnt > 1 {
             continue;
         }
-        let dir = format!("{VERIF_DIR}/replays/{id}");
+        let dir = format!("{}/replays/{id}", verif_dir());
         let _ = std::fs::create_dir_all(&dir);
         let body = serde_json::to_string_pretty(&rp).unwrap();
         let path = format!("{dir}/{}-{:016x}.json", rp.class, hash_str(&body));
@@ -1095,8 +1095,8 @@ pub fn check(id: &str, tier: &str) -> i32 {
         "assumptions": ["the generator stays in the fragment where the source semantics is unambiguous (pure terminating arguments and codata bodies)", "the reference machine runs on the AST produced by the repository's parser and checker", "x86-64 emulator fidelity", "exploration: a clean batch is evidence, not proof"],
         "wall_s": wall, "violations": violations
     });
-    let _ = std::fs::create_dir_all(format!("{VERIF_DIR}/evidence"));
-    std::fs::write(format!("{VERIF_DIR}/evidence/{id}.json"), serde_json::to_string_pretty(&ev).unwrap()).expect("evidence");
+    let _ = std::fs::create_dir_all(format!("{}/evidence", verif_dir()));
+    std::fs::write(format!("{}/evidence/{id}.json", verif_dir()), serde_json::to_string_pretty(&ev).unwrap()).expect("evidence");
     for l in &known_lines {
         println!("{l}");
     }
@@ -1148,7 +1148,7 @@ pub fn selftest(n: u64) -> i32 {
             return 2;
         }
     };
-    let dir = format!("{VERIF_DIR}/work/native-{}", std::process::id());
+    let dir = format!("{}/work/native-{}", verif_dir(), std::process::id());
     let _ = std::fs::create_dir_all(&dir);
     let old = std::env::current_dir().unwrap();
     std::env::set_current_dir(&dir).unwrap();
@@ -1209,7 +1209,7 @@ pub fn selftest(n: u64) -> i32 {
                 String::from_utf8_lossy(&emu.stdout).chars().take(80).collect::<String>(),
                 emu.status
             );
-            let _ = std::fs::write(format!("{VERIF_DIR}/work/selftest-{i}.sc"), &src);
+            let _ = std::fs::write(format!("{}/work/selftest-{i}.sc", verif_dir()), &src);
         } else {
             agree += 1;
         }
